@@ -307,6 +307,10 @@ def _ref_target(f, name):
                     if d.get("ref") and d.get("init") and d.get("k") == "local":
                         init = f.s(d["init"])
                         iu = unwrap(f, init)
+                        # an rvalue reference bound to `std::move(x)` / `std::forward<T>(x)` names x just the same
+                        while iu is not None and iu["k"] == "CallExpr" and callee_fq(iu) in ("std::move", "std::forward") and iu.get("args"):
+                            init = f.s(iu["args"][0])
+                            iu = unwrap(f, init)
                         if iu is not None and iu.get("vk") == "l" and iu["k"] in ("MemberExpr", "DeclRefExpr", "UnaryOperator",
                                                                                  "CXXOperatorCallExpr"):
                             cache[d["id"]] = init
@@ -1147,17 +1151,24 @@ class Engine:
                                   (lk["k"] in CTORS and len(lk["args"]) == 1 and lock_class(lk.get("t", "")))):
             lk = unwrap(g, g.s(lk["args"][0]))
         lp = path(g, lk) if lk is not None else None
-        if d is None or d["k"] != "DeclRefExpr" or d["d"].get("k") != "local" or d["d"].get("ref") or not lp:
+        if d is None or not lp:
             return None
-        did = d["d"]["id"]
-        if not _only_rvalue_uses(g, lambda x: x["k"] == "DeclRefExpr" and x["d"].get("id") == did):
+
+        def single_init(x):
+            """initialiser of a local that is defined once and only read afterwards"""
+            if x is None or x["k"] != "DeclRefExpr" or x["d"].get("k") != "local" or x["d"].get("ref"):
+                return None
+            did_ = x["d"]["id"]
+            if not _only_rvalue_uses(g, lambda y: y["k"] == "DeclRefExpr" and y["d"].get("id") == did_):
+                return None
+            for st in g.stmts.values():
+                if st["k"] == "DeclStmt":
+                    for dd in st["decls"]:
+                        if dd["id"] == did_ and dd.get("init"):
+                            return unwrap(g, g.s(dd["init"]))
             return None
-        init = None
-        for st in g.stmts.values():
-            if st["k"] == "DeclStmt":
-                for dd in st["decls"]:
-                    if dd["id"] == did and dd.get("init"):
-                        init = unwrap(g, g.s(dd["init"]))
+        # the selection may be written in place (`handle(owned ? obj : nullptr, std::move(lk))`) or kept in a local
+        init = d if d["k"] == "ConditionalOperator" else single_init(d)
         if init is None or init["k"] != "ConditionalOperator":
             return None
         c = unwrap(g, g.s(init["cond"]))
@@ -1165,6 +1176,13 @@ class Engine:
         while c is not None and c["k"] == "UnaryOperator" and c["op"] == "!":
             neg = not neg
             c = unwrap(g, g.children(c)[0])
+        if c is not None and c["k"] == "DeclRefExpr":
+            # `const bool owned = lk.owns_lock();` tested later
+            ci = single_init(c)
+            while ci is not None and ci["k"] == "UnaryOperator" and ci["op"] == "!":
+                neg = not neg
+                ci = unwrap(g, g.children(ci)[0])
+            c = ci
         if c is None or c["k"] != "CXXMemberCallExpr" or (c.get("callee") or {}).get("name") not in ("owns_lock", "operator bool") \
                 or path(g, g.s(c["obj"])) != lp:
             return None
